@@ -139,7 +139,7 @@ def mk_case(name, r, stmts, depth, in_module, cls, msg, root_ph="@ROOT@"):
     lines = []
     if mod is not None:
         lines += ["RESET", "FILE " + C.hx(f"{root_ph}/mod/fault.pakhi") + " " + C.hx(mod)]
-    lines.append(run_req(main))
+    lines.append(run_req(main, spec=1))
     return C.Case(name, lines, cmp_run(line=True, file=True, msg=msg is not None), oracle,
                   info={"main": main, "module": mod, "out": out, "line": line, "file": file, "cls": cls, "msg": msg, "run_index": len(lines) - 1,
                         "depth": depth, "in_module": in_module}, nontrivial=depth >= 1 or in_module)
